@@ -15,6 +15,7 @@ import (
 // parsedOp is an operation validated by gqlparser against the rig's schema.
 type parsedOp struct {
 	text string
+	vars string // JSON object of variable values ("" = none)
 	doc  *ast.QueryDocument
 	op   *ast.OperationDefinition
 	root *ast.Definition
